@@ -181,7 +181,10 @@ class Gen:
     def gen_pred(self, d, depth=0, avoid_pk=True):
         r = self.r
         cand = [i for i, c in enumerate(d.cols) if not (avoid_pk and c[3])]
-        if not cand or r.random() < 0.12:
+        # a constant `true` only at the top (= no WHERE clause): nested under AND/OR it sends the
+        # optimizer into a very long saturation (`(true or a < 7) or (a < 9 and a <= 5)` does not come
+        # back within 40 s on either engine - C17/C01's business, reported to the lead)
+        if not cand or (depth == 0 and r.random() < 0.12):
             return ("true",)
         x = r.random()
         if depth < 2 and x < 0.25:
@@ -516,7 +519,7 @@ def make_hist(hid, opts, names, steps, expect_sig=None):
     return {"id": hid, "line": line, "steps": steps, "opts": opts, "names": names, "expect_sig": expect_sig}
 
 
-def run_hists(work, harness_bin, driver_bin, hists, tag, shards=8, env=None):
+def run_hists(work, harness_bin, driver_bin, hists, tag, shards=8, env=None, shard_timeout=1500):
     """Runs the histories on the implementation (sharded over processes) and then the annotated
     requests on the Lean model.  Returns (impl: key->fields, model: key->fields, annotated lines)."""
     shards = max(1, min(shards, len(hists)))
@@ -534,8 +537,11 @@ def run_hists(work, harness_bin, driver_bin, hists, tag, shards=8, env=None):
         e.update(env)
 
     def one(j):
-        p = subprocess.run([harness_bin, "run", j[0], j[1], j[2], j[3], "detail"], env=e, stdout=subprocess.PIPE,
-                           stderr=subprocess.PIPE, text=True, errors="replace")
+        try:
+            p = subprocess.run([harness_bin, "run", j[0], j[1], j[2], j[3], "detail"], env=e, stdout=subprocess.PIPE,
+                               stderr=subprocess.PIPE, text=True, errors="replace", timeout=shard_timeout)
+        except subprocess.TimeoutExpired:
+            return 124, "harness shard %s did not finish within %d s (a statement does not terminate?)" % (j[0], shard_timeout)
         return p.returncode, p.stderr[-2000:]
 
     with ThreadPoolExecutor(max_workers=shards) as ex:
